@@ -286,8 +286,14 @@ impl<TActor: ThreadLocalActor> ThreadLocalActorRuntime<TActor> {
         spawner: ThreadLocalActorSpawner,
         supervisor: Option<ActorCell>,
     ) -> Result<(ActorRef<TActor::Msg>, JoinHandle<()>), SpawnErr> {
-        // cannot start an actor more than once
-        if self.actor_ref.get_status() != ActorStatus::Unstarted {
+        // cannot start an actor more than once. An instant spawn hands its reference out before the
+        // actor has started, so a `drain()` may already have moved the status to `Draining`: that actor
+        // has not been started yet either. It starts normally, works through what it had accepted and
+        // then stops with reason "Drained" (the status only ever moves forward).
+        if !matches!(
+            self.actor_ref.get_status(),
+            ActorStatus::Unstarted | ActorStatus::Draining
+        ) {
             return Err(SpawnErr::ActorAlreadyStarted);
         }
 
@@ -302,7 +308,7 @@ impl<TActor: ThreadLocalActor> ThreadLocalActorRuntime<TActor> {
 
         // setup supervision synchronously
         if let Some(sup) = &supervisor {
-            if !actor_ref.try_link(sup.clone()) {
+            if !actor_ref.try_link_at_spawn(sup.clone()) {
                 return Err(SpawnErr::StartupFailed(
                     "Supervisor is shutting down".into(),
                 ));
